@@ -209,6 +209,7 @@ def run(ctx):
             (ctx.ok if okd else ctx.bad)('R15d', key, '%s = sum over QUAL of the received sub-shares, modulo q' % mname if okd else
                                          '%s is not accumulated as 0 + sum over the members of QUAL of the received sub-shares modulo q' % mname, f)
     r15e(ctx)
+    r15f(ctx)
     # the dealer-based sharing (receiving side): the same share check, complaint kept in a flag
     f = [g_ for g_ in prog.by_q.get('PedersenVSS::Share', []) if g_.get('body') and any(p_['n'] == 'dealer' for p_ in g_['params'])]
     if not f:
@@ -315,3 +316,90 @@ EXPLANATION = ("Local rules of the joint sharing phase of the four joint verifia
                "complaints, own share as the sum over QUAL modulo q. Necessary conditions of C15 that each honest party's code must satisfy; agreement between "
                "parties, interpolation of any t+1 shares, dealer-based sharing and refresh are relations over executions and are not decided.")
 ASSUMPTIONS = ["GMP primitives as modelled in sa/sym.py", "element summary cells: rows of the share matrices are not distinguished", "the reliable broadcast delivers the same complaints to all (C14)"]
+
+
+def r15f(ctx, files=None, rule='R15f', floor=5):
+    """complaints are counted once per (complainer, accused): in every loop that collects the broadcast complaints of sender j
+    (a do/while around DeliverFrom(.., j)) the counter complaints_counter[who] is advanced under a test of a local table of
+    the parties this sender has already complained about.  That table belongs to one sender: it must be declared inside the
+    body of the loop over the senders (or cleared there before the collecting loop).  One table for all senders turns the
+    second complainer's complaint against the same dealer into a "duplicate" -- the counter stays below the threshold, the
+    second complainer is itself put on the complaint list, and parties that did not run their own complaints through this
+    loop end with a different qualified set."""
+    from ..facts import walk
+    prog = ctx.prog
+    FILES = files or ('JareckiLysyanskayaASTC.cc', 'CanettiGennaroJareckiKrawczykRabinASTC.cc', 'GennaroJareckiKrawczykRabinDKG.cc', 'PedersenVSS.cc')
+    n = 0
+    for k, f in sorted(prog.funcs.items(), key=lambda kv: (kv[1]['file'], kv[1]['line'])):
+        if not f.get('body') or not f['file'].endswith(FILES):
+            continue
+        decl_in = {}        # decl id -> ids of the enclosing loop statements
+
+        def rec(s, loops, out):
+            if isinstance(s, list):
+                for x in s:
+                    rec(x, loops, out)
+                return
+            if not isinstance(s, dict):
+                return
+            if s.get('k') == 'decl':
+                for v in s['v']:
+                    decl_in[v['id']] = list(loops)
+            if s.get('k') in ('for', 'while', 'do', 'forrange'):
+                out.append((s, list(loops)))
+                loops = loops + [s]
+            for key, v in s.items():
+                if isinstance(v, (dict, list)):
+                    rec(v, loops, out)
+        allloops = []
+        rec(f['body'], [], allloops)
+        for lp, enclosing in allloops:
+            if lp.get('k') not in ('do', 'while'):
+                continue
+            calls = [e for e in walk(lp.get('b')) if e.get('k') == 'mcall' and e.get('f', '').endswith('::DeliverFrom') and len(e.get('a', [])) >= 2]
+            if not calls:
+                continue
+            incs = []
+            for e in walk(lp.get('b')):
+                if e.get('k') == 'if':
+                    thn = e.get('t')
+                    if any(x.get('k') == 'un' and '++' in x.get('op', '') and 'complaints_counter' in str(x.get('a')) for x in walk(thn)):
+                        incs.append(e)
+            if not incs:
+                continue
+            sender = calls[0]['a'][1]
+            while isinstance(sender, dict) and sender.get('k') == 'cast':
+                sender = sender['e']
+            sid = sender.get('id') if isinstance(sender, dict) else None
+            floop = None
+            for F in reversed(enclosing):
+                if F.get('k') == 'for' and isinstance(F.get('i'), dict) and F['i'].get('k') == 'decl' and any(v['id'] == sid for v in F['i']['v']):
+                    floop = F
+                    break
+            if floop is None:
+                continue
+            tables = {}
+            for e in incs:
+                for x in walk(e.get('c')):
+                    if x.get('k') == 'var' and any(t_ in x.get('t', '') for t_ in ('map<', 'vector<bool', 'set<', 'bitset')) and not x.get('p'):
+                        tables[x['id']] = x.get('n')
+            n += 1
+            key = rule + ':%s@%d' % (f['q'], lp.get('l', 0))
+            if not tables:
+                ctx.bad(rule, key, 'complaints of one sender are counted without a table of the parties it has already complained about: a repeated complaint '
+                        'is counted again', f, line=lp.get('l'))
+                continue
+            bad = None
+            for did, nm in tables.items():
+                inside = any(L is floop for L in decl_in.get(did, []))
+                cleared = any(e.get('k') == 'mcall' and e.get('f', '').split('::')[-1] in ('clear', 'assign') and isinstance(e.get('o'), dict) and e['o'].get('id') == did
+                              for e in walk(floop.get('b')) if e is not lp)
+                if not inside and not cleared:
+                    bad = nm
+            if bad:
+                ctx.bad(rule, key, 'the table `%s` of parties a sender has already complained about is shared by all senders (declared outside the loop over the senders '
+                        'and never cleared in it): the complaint of a second complainer against the same dealer is dropped as a duplicate and the complainer itself '
+                        'is put on the complaint list' % bad, f, line=lp.get('l'))
+            else:
+                ctx.ok(rule, key, 'duplicate complaints are filtered per sender (table %s is local to one sender)' % ', '.join(sorted(tables.values())), f, line=lp.get('l'))
+    ctx.floor(rule, n, floor)
